@@ -155,10 +155,13 @@ def run(chk: core.Check) -> None:
                     continue
                 if not coord_reads_ok(chk, t, which, rle):
                     continue
+                cs1, rs1, problems, _g1 = T.state_of_xml(xml1)
                 if which != "optimize_width":
-                    cs1, rs1, problems, _g1 = T.state_of_xml(xml1)
                     lines += [f"tbl init {cs0} {rs0}", f"tbl x rstrip {1 if aggr else 0}"]
-                    expects += [None, (cs1, rs1, {"op": which, **rle})]
+                else:
+                    # the run-length model of optimize_width (OdfModel/Transform.tblOptimize): same XML run structure
+                    lines += [f"tbl init {cs0} {rs0}", "tbl x optimize"]
+                expects += [None, (cs1, rs1, {"op": which, **rle})]
             elif which == "transpose":
                 t.transpose()
                 once = t.get_values()
